@@ -225,7 +225,11 @@ fn transform(
     // 10 for angular
     let decimals = options
         .decimals
-        .unwrap_or(if operands[0][0] > 1000. { 5 } else { 10 });
+        .unwrap_or(if !operands.is_empty() && operands[0][0] > 1000. {
+            5
+        } else {
+            10
+        });
 
     // Finally output the transformed coordinates
     for coord in operands {
